@@ -211,3 +211,22 @@ prop("C09", "c09",
            "decision and proxy services; bounded exploration.",
      note="Trusted: net.ParseIP/ParseCIDR used by the reference trust decision.",
      technique="property-based testing: metamorphic header-removal relation + reference view")
+
+prop("C15", "c15",
+     "Raw request targets (optional literal prefix + 1-4 segments of unreserved / sub-delim characters and valid escapes: "
+     "%41 %7e %20 %25 %3F %23 %5B %C3%A9 %e2%82%ac %00 %2B %3a, %2F/%2f under no_decode), queries with repeated / encoded / "
+     "empty / ';'-separated parameters, rewrite configurations (scheme, strip prefix, add prefix, stripped query parameters, "
+     "any subset), client headers colliding with pipeline headers in arbitrary casing (also repeated), X-Forwarded-Method/-Uri/"
+     "-Path, X-Forwarded-For or Forwarded from trusted and untrusted peers (IPv4/IPv6), methods and bodies of 0-64 KiB with "
+     "and without chunked encoding, optionally read by the pipeline. Oracle: the echo upstream's record: Host = forward_to.host; "
+     "raw path byte-identical to add + TrimPrefix(client raw path, strip); raw query byte-identical without query rewrite, "
+     "otherwise the parsed multiset equals the original minus the removed keys; method and body identical; for every pipeline "
+     "header exactly the pipeline's value arrives; other client headers pass; X-Forwarded-Method/-Uri/-Path never arrive; "
+     "X-Forwarded-For or Forwarded ends with the peer address. Non-trivial: encoding present, rewrite configured or a "
+     "colliding header; distinct by scenario.",
+     [dict(run="^TestForwardedRequestIsTheRewrittenRequest$", quick=1000, thorough=8000, shards_thorough=10)],
+     ["raw non-ASCII bytes in the request line are not generated (invalid per RFC 3986)", "a rewrite leaving a relative path is don't-care",
+      "the upstream speaks plain http: for TLS client connections the rewrite sets scheme http"],
+     level="Randomised generated search against the record of an echo upstream behind the assembled proxy service; bounded exploration.",
+     note="Trusted: the echo upstream records the request line as received (http.Request.RequestURI).",
+     technique="property-based testing: reference computation of the forwarded request, observed at an echo upstream")
